@@ -32,3 +32,21 @@ HX int h_mscohere_after(const double* x, double c, int nx, int wkind, int winlen
     arr_real a = mk_real(x, nx); arr_real b = a * c; arr_real r = mscohere(a, b, mkwin(wkind, winlen), noverlap, nfft); put_real(r, out); return r.size();
     H_END
 }
+
+// convenience overloads: ovl 0 (x, winlen, scale)  1 (x, hamming window, scale)  2 (x, winlen, noverlap, nfft, scale); documented defaults: hamming window, winlen/2 overlap, nfft = 2^nextpow2(winlen)
+HX int h_welch_ovl(int cplx, int ovl, const double* x, int nx, int winlen, int noverlap, int nfft, int scale, double* pxx, double* f) {
+    H_TRY
+    SpectrumType st = scale ? SpectrumType::Power : SpectrumType::Psd;
+    WelchResult r(arr_real{}, arr_real{});
+    switch (ovl + 4 * cplx) {
+    case 0: r = welch(mk_real(x, nx), winlen, st); break;
+    case 1: r = welch(mk_real(x, nx), window::hamming(winlen), st); break;
+    case 2: r = welch(mk_real(x, nx), winlen, noverlap, nfft, st); break;
+    case 4: r = welch(mk_cmplx(x, nx), winlen, st); break;
+    case 5: r = welch(mk_cmplx(x, nx), window::hamming(winlen), st); break;
+    default: r = welch(mk_cmplx(x, nx), winlen, noverlap, nfft, st); break;
+    }
+    put_real(r.pxx, pxx); put_real(r.f, f);
+    return (r.pxx.size() == r.f.size()) ? r.pxx.size() : -2;
+    H_END
+}
